@@ -446,11 +446,25 @@ def rewrite_targets(tier, rng):
                 ops1[f"map_overlap(depth={depth},boundary={bnd})[{a}:{b}]"] = (
                     (lambda x, depth=depth, bnd=bnd, a=a, b=b: x.map_overlap(halo(depth), depth=depth, boundary=bnd, dtype="f8")[a:b]),
                     None)
+    # coarse slice through a blockwise whose blocks change size (adjust_chunks / map_blocks(chunks=...)): every position of
+    # the slice's last element relative to the output block boundaries (first / inner / last element of a block), at the
+    # root and under a reduction
+    def _repeat2(x):
+        return x.map_blocks(lambda b: np.repeat(b, 2), chunks=(tuple(2 * c for c in x.chunks[0]),), dtype=x.dtype)
+    for t in range(1, 25):
+        for s_ in sorted({0, max(t - 3, 0), max(t - 9, 0)}):
+            if tier == "quick" and s_ == max(t - 9, 0) and s_ not in (0, max(t - 3, 0)) and t % 2:
+                continue
+            ops1[f"map_blocks(repeat2, chunks=2c)[{s_}:{t}]"] = (lambda x, s_=s_, t=t: _repeat2(x)[s_:t], lambda a, s_=s_, t=t: np.repeat(a, 2)[s_:t])
+            ops1[f"map_blocks(repeat2, chunks=2c)[{s_}:{t}].sum()"] = (lambda x, s_=s_, t=t: _repeat2(x)[s_:t].sum(), lambda a, s_=s_, t=t: np.repeat(a, 2)[s_:t].sum())
+        ops1[f"map_blocks(repeat2, chunks=2c)[{t - 1}]"] = (lambda x, t=t: _repeat2(x)[t - 1], lambda a, t=t: np.repeat(a, 2)[t - 1])
     for c in lay1:
         for sname, mk in srcs1(c):
             for oname, (f, g) in ops1.items():
                 if g is None and (sname != "np" or min(c) < 4):
                     continue  # overlap entries: NumPy sources, blocks at least as large as the depth
+                if oname.startswith("map_blocks(repeat2") and sname != "np":
+                    continue
                 out.append((f"1d/{sname}/{c}/{oname}", (lambda mk=mk, f=f, g=g: (f(mk()), (g(d1) if g is not None else None), {}))))
     for c in lay2:
         for sname, mk in srcs2(c):
